@@ -230,7 +230,9 @@ def real(ctx, npairs):
     pairs = pairs[:max(npairs, len(firsts))]
     cases_outs = []
     for a, f in pairs:
-        for mode in (["twice"] if ctx.tier == "quick" else ["once", "twice"]):
+        # the uniform analysis comes LAST, on the semantics object that has just balanced the very same kernel: nothing of the
+        # optimised pass may survive into it (per-object memos of looked-up pressure lists)
+        for mode in (["twice", "uniform"] if ctx.tier == "quick" else ["once", "twice", "uniform"]):
             try:
                 case, out = pressure.real_case(a, f, mode)
             except Exception as e:  # parse/semantics failure is not this property's business
@@ -240,6 +242,23 @@ def real(ctx, npairs):
             ctx.count()
             ctx.nontriv(case_key(case))
             judge(ctx, case, out)
+    # --fixed means THE uniform split: every row of a uniform analysis is cycles/len(ports) per micro-op and port, computed here
+    # with exact fractions from the micro-ops the line reports (zen1: load/store multipliers scale the micro-ops, skipped)
+    from fractions import Fraction as Fr
+    devs = []
+    nuni = 0
+    for case, out in cases_outs:
+        if case["mode"] != "uniform" or out[0] != "ok" or not case.get("real") or case["real"][0] == "zen1":
+            continue
+        nuni += 1
+        for ln, (fi, row) in enumerate(zip(case["kernel"], out[1])):
+            us = pressure.uops_of(case, fi, out[3][ln])
+            exp = [sum((c / len(ps) for c, ps in us if ps and p in ps), Fr(0)) for p in case["ports"]]
+            if any(abs(Fr(x) - e) > Fr(1, 10 ** 9) for x, e in zip(row, exp)):
+                devs.append("%s on %s, line %d: reported %s, uniform split of its micro-ops %s" % (
+                    os.path.basename(str(case["real"][1]))[:60], case["real"][0], ln, row, [float(e) for e in exp]))
+    ctx.obligation("correspondence real-uniform: every row of a uniform (--fixed) analysis, made on the semantics object that has just balanced the same "
+                   "kernel, is the 1/N split of the line's micro-ops (%d analyses)" % nuni, "correspondence", not devs, "\n".join(devs[:5]))
     ctx.coverage["real_pairs"] = len(pairs)
     # generated kernels through the real parse + add_semantics path: the same model entry hit by several lines
     gen = 0
@@ -249,7 +268,7 @@ def real(ctx, npairs):
         path = os.path.join(ctx.scratch, "rep%d.s" % i)
         with open(path, "w") as f:
             f.write(pressure.repeated_entry_kernel(ctx.rng, isa))
-        for mode in ("once", "twice"):
+        for mode in ("once", "twice", "uniform"):
             try:
                 case, out = pressure.real_case(arch, path, mode)
             except Exception as e:  # noqa
